@@ -55,9 +55,10 @@ func generate(parsed profile.Profile) (module generator.RegoUnit, err error) {
 	return generator.Generate(parsed), nil
 }
 
-// unsafeBuiltinsMap When updating to 0.35 ast.NetLookupIPAddr will be available and needs to be added and blocked too
+// unsafeBuiltinsMap built-ins that can reach the network or the host process, or re-enter the compiler
 var unsafeBuiltinsMap = map[string]struct{}{
 	ast.HTTPSend.Name:        {},
+	ast.NetLookupIPAddr.Name: {},
 	ast.WalkBuiltin.Name:     {},
 	ast.OPARuntime.Name:      {},
 	ast.RegoParseModule.Name: {},
